@@ -4,7 +4,7 @@
    capacity 1..4, a write may fail): the intended host loop satisfies PeerGetsAll / InOrderNoGap / Contiguous /
    LockFreeAtEnd; the sanity mutations IgnoreShortWrite (finding F1 before its repair), ResubmitStale and
    LockPerCall each violate one of them.
-2. code->spec, in-memory: every capacity sequence over {1, 2, half, len-1, len} up to 4 calls (then unlimited), and
+2. code->spec, in-memory: every capacity sequence over {0, 1, 2, half, len-1, len} up to 4 calls (then unlimited), and
    random capacities, imposed on the transport for a scenario covering connect / shell / stat / list / pull / push,
    sync and async; the bytes the peer received are framed by the independent parser and judged by the frame
    clauses of TraceEnv (a gap or truncation shows as C02.Framing / C02.Checksum / an incomplete frame); a 70 KB
@@ -41,8 +41,8 @@ def run_caps(mode, spec, capseq, rng=None):
     def wcap(n):
         tok = next(it, None)
         if tok is None:
-            return rng.randint(1, n) if rng else n
-        return {'1': 1, '2': min(2, n), 'half': max(1, n // 2), 'len-1': max(1, n - 1), 'len': n}[tok]
+            return (0 if rng.random() < 0.1 else rng.randint(1, n)) if rng else n
+        return {'0': 0, '1': 1, '2': min(2, n), 'half': max(1, n // 2), 'len-1': max(1, n - 1), 'len': n}[tok]      # '0': nothing accepted this time, try again
     for op in spec['ops']:
         op['read_timeout_s'] = 1.0
     rr = scen.run(dict(spec, connect_kw=dict(read_timeout_s=1.0)), mode, wcap=wcap)
@@ -155,7 +155,7 @@ def body(ctx):
         if dev == 'IgnoreShortWrite' and f1:
             ctx.violation('C15.PeerGetsAll(design)', dict(kind='design-counterexample', deviation='IgnoreShortWrite', state=r.violations[0]['trace'][-1][:400]), finding='F1')
     # 2. in-memory capacities
-    toks = ['1', '2', 'half', 'len-1', 'len']
+    toks = ['0', '1', '2', 'half', 'len-1', 'len']
     seqs = [s for n in (1, 2, 3, 4) for s in itertools.product(toks, repeat=n)]
     if ctx.quick:
         seqs = [s for s in seqs if len(s) <= 2] + rng.sample([s for s in seqs if len(s) > 2], 40)
